@@ -970,7 +970,15 @@ func crashMonitors(c *vh.Ctx, us []*unit, sc scen, res result, plain map[int64][
 	default:
 		lostK = "row-lost:crash-after-last-ack:other"
 	}
-	replay := fmt.Sprintf("history: %s ;; schedule: %s ;; events: %s", describe(us), sc.name, strings.Join(res.ev, " | "))
+	var ds []string
+	seen := map[*areq]bool{}
+	for _, u := range us {
+		if !seen[u.req] {
+			seen[u.req] = true
+			ds = append(ds, u.req.descr)
+		}
+	}
+	replay := fmt.Sprintf("requests: %s ;; units: %s ;; schedule: %s ;; events: %s", strings.Join(ds, " ; "), describe(us), sc.name, strings.Join(res.ev, " | "))
 	for i, u := range us {
 		if i >= res.persist {
 			continue
@@ -1023,12 +1031,16 @@ func main() {
 	r := vh.NewRand(c.Seed*0x2545F4914F6CDD1D + 0x9E3779B9) // vh's streams of consecutive seeds are shifts of each other
 	nHist := 40
 	if c.Thorough() {
-		nHist = 400
+		nHist = 250
 	}
 	if c.N > 0 {
 		nHist = c.N
 	}
 	probeTypedFallback(c)
+	// edge grid first: one minimal request per candidate class (their replays are the ones reported)
+	for i, q := range edgeRequests() {
+		runHistory(c, r.Fork(), []*areq{q}, -1-i)
+	}
 	for h := 0; h < nHist; h++ {
 		g := &gen{r: r.Fork()}
 		n := 1 + g.r.Intn(12)
@@ -1194,5 +1206,50 @@ func probeTypedFallback(c *vh.Ctx) {
 				c.Tag("probe:typed-fallback:null-preserved")
 			}
 		}
+	}
+}
+
+// edgeRequests: minimal requests, one per way a persisted WAL entry can replay differently from the live path.
+func edgeRequests() []*areq {
+	lp := func(db, prec, body string) *areq {
+		return &areq{kind: "lp", db: db, prec: prec, body: []byte(body),
+			descr: fmt.Sprintf("line protocol, x-arc-database=%q, precision=%q, body %q", db, prec, body)}
+	}
+	mp := func(kind, db, text string, v interface{}) *areq {
+		return &areq{kind: kind, db: db, body: mustPack(v), descr: fmt.Sprintf("msgpack, x-arc-database=%q, body %s", db, text)}
+	}
+	i64 := func(xs ...int64) []interface{} {
+		out := make([]interface{}, len(xs))
+		for i, x := range xs {
+			out[i] = x
+		}
+		return out
+	}
+	return []*areq{
+		lp("", "us", "cpu rid=1i,v=1 1700000000000000"), // clean
+		lp("", "us", "cpu rid=1i,v=1 5000000"),          // 1970-01-01T00:00:05Z
+		lp("", "us", "cpu rid=1i,v=1 -1000000"),         // 1969-12-31T23:59:59Z
+		lp("", "s", "cpu rid=1i,v=1 8000000"),           // 1970-04-03 (before 1970-04-27)
+		lp("", "us", "cpu rid=1i,v=1 11000000000000000"), // year 2318
+		lp("", "us", "cpu,m=x rid=1i,v=1 1700000000000000"),
+		lp("", "us", "cpu,database=x,measurement=y rid=1i,v=1 1700000000000000"),
+		lp("prod", "us", "cpu,_database=lab rid=1i,v=1 1700000000000000"),
+		lp("prod", "us", "cpu,_measurement=mem rid=1i,v=1 1700000000000000"),
+		lp("prod", "us", "cpu,_measurement=mem rid=1i,v=1 1700000000000000\ncpu rid=2i,v=2 1700000000000001"),
+		lp("prod", "us", "cpu rid=1i,v=1 1700000000000000\ncpu rid=2i,v=2,_x=7i 1700000000000001"),
+		mp("raw", "", `{m:5, columns:{time:[1700000000], rid:[1], v:[1.5]}}`,
+			map[string]interface{}{"m": int64(5), "columns": map[string]interface{}{"time": i64(1700000000), "rid": i64(1), "v": []interface{}{1.5}}}),
+		mp("raw", "", `{m:"cpu", columns:{rid:[1], v:[1.5]}}`,
+			map[string]interface{}{"m": "cpu", "columns": map[string]interface{}{"rid": i64(1), "v": []interface{}{1.5}}}),
+		mp("raw", "prod", `{m:"cpu", columns:{time:[-5, 1700000000], rid:[1,2], database:["x","y"], _database:["lab","lab"]}}`,
+			map[string]interface{}{"m": "cpu", "columns": map[string]interface{}{"time": i64(-5, 1700000000), "rid": i64(1, 2),
+				"database": []interface{}{"x", "y"}, "_database": []interface{}{"lab", "lab"}}}),
+		mp("ncol", "", `[{m:"cpu", columns:{time:[5], rid:[1], v:[1.5]}}]`,
+			[]interface{}{map[string]interface{}{"m": "cpu", "columns": map[string]interface{}{"time": i64(5), "rid": i64(1), "v": []interface{}{1.5}}}}),
+		mp("row", "", `{m:"cpu", t:-5, fields:{rid:1, v:1.5}, tags:{database:"x"}}`,
+			map[string]interface{}{"m": "cpu", "t": int64(-5), "fields": map[string]interface{}{"rid": int64(1), "v": 1.5}, "tags": map[string]interface{}{"database": "x"}}),
+		mp("brow", "lab", `{batch:[{m:"cpu", t:1700000000, fields:{rid:1, _database:"prod"}}]}`,
+			map[string]interface{}{"batch": []interface{}{map[string]interface{}{"m": "cpu", "t": int64(1700000000),
+				"fields": map[string]interface{}{"rid": int64(1), "_database": "prod"}}}}),
 	}
 }
